@@ -41,6 +41,8 @@ func (o optSet) mode() string {
 		return "m"
 	case o.Sched:
 		return "s"
+	case o.MF:
+		return "M"
 	default:
 		return "w"
 	}
@@ -680,24 +682,40 @@ func (e *env) checkPlanHypotheses(o *outcome, reqs []*fedlab.Request, needs map[
 		key string
 		obj *fedlab.J
 	}
-	entsOf := func(r *fedlab.Request) []ent {
+	// a writer: one fetch (or one entry of a merged fetch) with the entities its response delivered
+	type writer struct {
+		f    *e2e.Fetch
+		path string
+		ents []ent
+	}
+	var writers []writer
+	for _, r := range reqs {
+		cands := byIdent[r.Ident()]
+		if len(cands) != 1 {
+			continue
+		}
+		f := cands[0]
 		j, err := fedlab.ParseJSON(r.Response)
 		if err != nil {
-			return nil
+			continue
 		}
 		data := j.Get("data")
 		if data == nil || data.Kind != fedlab.JObj {
-			return nil
+			continue
 		}
-		var out []ent
 		if !r.IsEntityFetch {
-			return []ent{{"<root>", data}}
+			writers = append(writers, writer{f, f.Path, []ent{{"<root>", data}}})
+			continue
 		}
 		for _, m := range data.Members {
-			// _entities, or fN: _entities of a multi fetch (representations_fN)
-			repsName := "representations"
+			repsName, path := "representations", f.Path
 			if m.Key != "_entities" {
 				repsName = "representations_" + m.Key
+				for _, en := range f.Entries {
+					if en.Alias == m.Key {
+						path = en.Path
+					}
+				}
 			}
 			var reps []*fedlab.J
 			if r.Variables != nil {
@@ -708,41 +726,102 @@ func (e *env) checkPlanHypotheses(o *outcome, reqs []*fedlab.Request, needs map[
 			if m.Val.Kind != fedlab.JArr || len(reps) != len(m.Val.Items) {
 				continue
 			}
+			w := writer{f: f, path: path}
 			for i, it := range m.Val.Items {
 				if k := entityKey(reps[i]); k != "" && it.Kind == fedlab.JObj {
-					out = append(out, ent{k, it})
+					w.ents = append(w.ents, ent{k, it})
 				}
+			}
+			writers = append(writers, w)
+		}
+	}
+	descend := func(x *fedlab.J, rest []string) []*fedlab.J {
+		cur := []*fedlab.J{x}
+		for _, seg := range rest {
+			var next []*fedlab.J
+			for _, c := range cur {
+				if c.Kind == fedlab.JArr {
+					for _, it := range c.Items {
+						if seg == "@" {
+							next = append(next, it)
+						} else if v := it.Get(seg); v != nil {
+							next = append(next, v)
+						}
+					}
+					continue
+				}
+				if seg == "@" {
+					continue
+				}
+				if v := c.Get(seg); v != nil {
+					next = append(next, v)
+				}
+			}
+			cur = next
+		}
+		var out []*fedlab.J
+		for _, c := range cur {
+			if c.Kind == fedlab.JArr {
+				out = append(out, c.Items...)
+			} else {
+				out = append(out, c)
 			}
 		}
 		return out
 	}
-	for i := 0; i < len(reqs); i++ {
-		for j := i + 1; j < len(reqs); j++ {
-			a, b := byIdent[reqs[i].Ident()], byIdent[reqs[j].Ident()]
-			if len(a) != 1 || len(b) != 1 || a[0] == b[0] {
+	for i := 0; i < len(writers); i++ {
+		for j := i + 1; j < len(writers); j++ {
+			wa, wb := writers[i], writers[j]
+			if wa.f == wb.f {
 				continue
 			}
-			f, g := a[0], b[0]
-			if reachable(byID, f.ID)[g.ID] || reachable(byID, g.ID)[f.ID] {
+			if reachable(byID, wa.f.ID)[wb.f.ID] || reachable(byID, wb.f.ID)[wa.f.ID] {
 				continue
 			}
-			if f.Path != g.Path {
-				if strings.HasPrefix(f.Path+".", g.Path+".") || strings.HasPrefix(g.Path+".", f.Path+".") || f.Path == "" || g.Path == "" {
-					o.Stats["writes_prefix_related_unordered"]++
-				}
-				if !(f.Kind == "multi" || g.Kind == "multi") {
-					continue
-				}
+			if len(wa.path) > len(wb.path) {
+				wa, wb = wb, wa
 			}
-			o.Stats["writes_compatible_pairs"]++
-			ea, eb := entsOf(reqs[i]), entsOf(reqs[j])
-			for _, x := range ea {
-				for _, y := range eb {
-					if x.key == y.key && (x.key != "<root>" || (f.Path == "" && g.Path == "")) {
-						if d := commonMembersAgree(x.obj, y.obj, x.key); d != "" {
-							viol("writes_compatible", "unordered fetches %d and %d write different values at %s", f.ID, g.ID, d)
+			var rest []string
+			switch {
+			case wa.path == wb.path:
+			case wa.path == "":
+				rest = strings.Split(wb.path, ".")
+			case strings.HasPrefix(wb.path, wa.path+"."):
+				rest = strings.Split(wb.path[len(wa.path)+1:], ".")
+			default:
+				continue // disjoint subtrees
+			}
+			checked := false
+			for _, x := range wa.ents {
+				if len(rest) == 0 {
+					for _, y := range wb.ents {
+						if x.key == y.key {
+							checked = true
+							if d := commonMembersAgree(x.obj, y.obj, y.key); d != "" {
+								viol("writes_compatible", "unordered fetches %d and %d write different values at %s %s", wa.f.ID, wb.f.ID, wb.path, d)
+							}
 						}
 					}
+					continue
+				}
+				for _, xo := range descend(x.obj, rest) {
+					if xo == nil || xo.Kind != fedlab.JObj {
+						continue
+					}
+					for _, y := range wb.ents {
+						if entityKey(xo) == y.key {
+							checked = true
+							if d := commonMembersAgree(xo, y.obj, y.key); d != "" {
+								viol("writes_compatible", "unordered fetches %d and %d write different values at %s %s", wa.f.ID, wb.f.ID, wb.path, d)
+							}
+						}
+					}
+				}
+			}
+			if checked {
+				o.Stats["writes_compatible_pairs"]++
+				if len(rest) > 0 {
+					o.Stats["writes_compatible_prefix_pairs"]++
 				}
 			}
 		}
@@ -759,11 +838,6 @@ func keysOf(m map[int]bool) []int {
 }
 
 // ---------------------------------------------------------------- commands
-
-func treeLine(o *outcome, mode string) string {
-	// (c08 dag (dag (f ID (DEPS))...) (res MODE T T T)) -- the dag is the tree's own leaf list
-	return ""
-}
 
 func (e *env) cfgFor(tier string) {
 	if tier == "thorough" {
@@ -793,17 +867,75 @@ func optSets(tier string, which string) []optSet {
 	return out
 }
 
-func driverLine(tree *e2e.Tree, mode string) string {
-	var fs []string
+// driverLine renders (plan, tree) in the line format of ocaml/c08/driver.ml:
+//
+//	(c08 dag (dag (f ID (DEPS) SRC)...) (res MODE TREE TREE TREE))   TREE leaves (S id (deps) (merged))
+//
+// The dag is the planner's RAW fetch list (before post-processing) with the fetches removed by
+// deduplicateSingleFetches dropped and their dependants redirected to the survivor; SRC marks the
+// entity fetches (merge candidates of createMultiFetch: datasource index, one envelope).
+func driverLine(tree *e2e.Tree, raw []*e2e.Fetch, opt optSet, subIdx map[string]int) string {
+	alive := map[int]bool{}
 	for _, f := range tree.Fetches() {
-		ds := make([]string, len(f.Deps))
-		for i, d := range f.Deps {
-			ds[i] = fmt.Sprint(d)
+		alive[f.ID] = true
+		for _, m := range f.Merged {
+			alive[m] = true
 		}
-		fs = append(fs, fmt.Sprintf("(f %d (%s))", f.ID, strings.Join(ds, " ")))
 	}
-	t := tree.Sexp()
-	return fmt.Sprintf("(c08 dag (dag %s) (res %s %s %s %s))", strings.Join(fs, " "), mode, t, t, t)
+	rep := map[int]int{}
+	for _, f := range raw {
+		if alive[f.ID] {
+			continue
+		}
+		for _, g := range raw {
+			if alive[g.ID] && g.Subgraph == f.Subgraph && g.Query == f.Query && g.Path == f.Path {
+				rep[f.ID] = g.ID
+				break
+			}
+		}
+	}
+	nums := func(xs []int) string {
+		s := make([]string, len(xs))
+		for i, x := range xs {
+			s[i] = fmt.Sprint(x)
+		}
+		return strings.Join(s, " ")
+	}
+	var fs []string
+	for _, f := range raw {
+		if _, gone := rep[f.ID]; gone {
+			continue
+		}
+		var ds []int
+		seen := map[int]bool{}
+		for _, d := range f.Deps {
+			if r, ok := rep[d]; ok {
+				d = r
+			}
+			if d != f.ID && !seen[d] {
+				seen[d] = true
+				ds = append(ds, d)
+			}
+		}
+		src := "-"
+		if opt.MF && f.Entity {
+			src = fmt.Sprintf("(%d 0)", subIdx[f.Subgraph])
+		}
+		fs = append(fs, fmt.Sprintf("(f %d (%s) %s)", f.ID, nums(ds), src))
+	}
+	var show func(t *e2e.Tree) string
+	show = func(t *e2e.Tree) string {
+		if t.Kind == "S" {
+			return fmt.Sprintf("(S %d (%s) (%s))", t.Fetch.ID, nums(t.Fetch.Deps), nums(t.Fetch.Merged))
+		}
+		parts := []string{t.Kind}
+		for _, c := range t.Children {
+			parts = append(parts, show(c))
+		}
+		return "(" + strings.Join(parts, " ") + ")"
+	}
+	t := show(tree)
+	return fmt.Sprintf("(c08 dag (dag %s) (res %s %s %s %s))", strings.Join(fs, " "), opt.mode(), t, t, t)
 }
 
 func (e *env) runCases(cases []*fedlab.Case, exact bool, opts []optSet, out, trees *common.Out) (nChecked int) {
@@ -855,8 +987,12 @@ func (e *env) runCases(cases []*fedlab.Case, exact bool, opts []optSet, out, tre
 			o := e.checkCase(c, lab, pl, opt, rnd)
 			enc(o)
 			if o.Tree != "" && trees != nil {
-				if t, _, err := pl.PlanWithRaw(c.Op.Text(), c.Op.Name, []byte(c.Op.VariablesJSON())); err == nil {
-					trees.Line(driverLine(t, opt.mode()))
+				if t, raw, err := pl.PlanWithRaw(c.Op.Text(), c.Op.Name, []byte(c.Op.VariablesJSON())); err == nil {
+					subIdx := map[string]int{}
+					for i, g := range c.Cfg.Subgraphs {
+						subIdx[g.Name] = i
+					}
+					trees.Line(driverLine(t, raw, opt, subIdx))
 				}
 			}
 			if o.Status == "checked" {
